@@ -66,8 +66,10 @@ fn parse_if(
 
     while let Some(element) = tokens.next()? {
         match element {
-            BlockElement::Tag(tag) => match tag.name() {
+            BlockElement::Tag(mut tag) => match tag.name() {
                 "else" => {
+                    // no more arguments should be supplied, trying to supply them is an error
+                    tag.tokens().expect_nothing()?;
                     if_false = Some(tokens.parse_all(options)?);
                     break;
                 }
@@ -129,8 +131,10 @@ impl ParseBlock for UnlessBlock {
 
         while let Some(element) = tokens.next()? {
             match element {
-                BlockElement::Tag(tag) => match tag.name() {
+                BlockElement::Tag(mut tag) => match tag.name() {
                     "else" => {
+                        // no more arguments should be supplied, trying to supply them is an error
+                        tag.tokens().expect_nothing()?;
                         if_false = Some(tokens.parse_all(options)?);
                         break;
                     }
